@@ -24,7 +24,7 @@ theorem C06_df_eq_ff [DecidableEq V] (W : World V) (LL : LowerLaws W) (P : Parse
     MapEq (dataFirst {} W P o data).result (fieldFirst {} W P o data).result
     ∧ SetEq (dataFirst {} W P o data).errs (fieldFirst {} W P o data).errs := by
   have wf := WF.of_wf hwf
-  obtain ⟨h1, h2⟩ := dataFirst_equiv_ref LL wf o data
+  obtain ⟨h1, h2⟩ := dataFirst_equiv_ref LL wf o data hnd
   rw [fieldFirst_eq_ref LL wf o hnd]
   exact ⟨h1, h2⟩
 
